@@ -97,6 +97,9 @@ func (e *Engine) VerifyFunc(fn *ssa.Function, spec *FuncSpec) (res *FuncResult) 
 	for _, r := range spec.Requires {
 		st.assume(pre.evalBool(r.E))
 	}
+	for _, ap := range spec.Applies {
+		e.applyLemma(st, pre, ap, "entry", fn.Pos())
+	}
 	// snapshot entry heaps (symbols created lazily keep their !0 names)
 	entryHeaps := st.old
 	_ = entryHeaps
@@ -126,7 +129,7 @@ func (e *Engine) VerifyFunc(fn *ssa.Function, spec *FuncSpec) (res *FuncResult) 
 		for i, n := range resultNames {
 			penv[n] = results[i]
 		}
-		ctx := &specCtx{e: e, st: s, env: penv, heaps: s.heaps, oldHeaps: s.old, pkg: fn.Pkg, results: results}
+		ctx := &specCtx{e: e, st: s, env: penv, heaps: s.heaps, oldHeaps: s.old, pkg: fn.Pkg, results: results, goal: true}
 		root := s.frames[0]
 		ctx.iters = func(ord int) *Term {
 			if ord < len(fi.byOrd) {
@@ -143,6 +146,13 @@ func (e *Engine) VerifyFunc(fn *ssa.Function, spec *FuncSpec) (res *FuncResult) 
 			ctx.unfold(u)
 		}
 		nb := len(e.obs)
+		// postconditions are proved in order; each proved clause may be used for the later ones
+		saveFacts, saveSet := s.facts, s.factSet
+		s.factSet = make(map[string]bool, len(saveSet))
+		for k := range saveSet {
+			s.factSet[k] = true
+		}
+		s.facts = append([]*Term(nil), saveFacts...)
 		for i, en := range spec.Ensures {
 			lbl := en.Label
 			ord := -1
@@ -154,12 +164,18 @@ func (e *Engine) VerifyFunc(fn *ssa.Function, spec *FuncSpec) (res *FuncResult) 
 				// known finding: the clause is claimed outside the recorded region; inside it a probe
 				// obligation (expected to fail) keeps the finding visible.
 				ex := (&specCtx{e: e, st: s, env: penv, heaps: s.old, oldHeaps: s.old, pkg: fn.Pkg}).evalBool(en.Except)
-				e.obligeNoAssume(s, "post", lbl, ord, Implies(Not(ex), g), en.Text+"   [outside known finding "+en.Tag+"]")
+				e.oblige(s, "post", lbl, ord, Implies(Not(ex), g), en.Text+"   [outside known finding "+en.Tag+"]", 0)
 				e.obligeNoAssume(s, "post", lbl+"!"+en.Tag, ord, Implies(ex, g), en.Text+"   [inside known finding "+en.Tag+"]")
 				continue
 			}
-			e.obligeNoAssume(s, "post", lbl, ord, g, en.Text)
+			if g.IsTrue() {
+				e.obligeNoAssume(s, "post", lbl, ord, g, en.Text)
+				continue
+			}
+			e.oblige(s, "post", lbl, ord, g, en.Text, 0)
 		}
+		s.facts, s.factSet = saveFacts, saveSet
+		s.dead = false
 		for _, ob := range e.obs[nb:] {
 			ob.results = results
 		}
@@ -331,6 +347,7 @@ func (e *Engine) VerifyLemma(pkg *ssa.Package, lm *LemmaSpec) (res *FuncResult) 
 		st.assume(ctx.evalBool(r.E))
 	}
 	e.cover(st, "requires")
+	ctx.goal = true
 	for i, en := range lm.Ensures {
 		lbl := en.Label
 		ord := -1
